@@ -11,7 +11,7 @@ Line protocol (one request per line, fields separated by one blank):
 * `D <1|2> <hex>`   → `ok <tree>` | `err`       (model of the REAL `parse` on arbitrary bytes),
 * `DD <1|2> <hex>`  → `ok <tree> <id:xtext,…|->` | `err`   (documented-format decoder),
 * `W <1|2> <tree>`  → `wf <nodesOK 0|1> <idFaithful 0|1> <fits 0|1>`,
-* `K c <ct> <subs> <names|N>` | `K s <base> <subs> <names|N> <cards|N> <lp|N> <links|N> <impl 0|1>`
+* `K c <ct> <subs> <names|N>` | `K s <base> <subs> <names|N> <cards|N> <lp|N> <links|N> <impl 0|1> <sources|N>`
   | `K t <sub>`      → `ok <hex preimage>` | `none`,
 * `U <hex id>`      → `ok <hex of str(uuid)>`,
 * `F <hex>`         → `ok <n frames>` | `err`    (walk by the ≥2.0 length prefixes),
@@ -213,15 +213,15 @@ def handle (line : String) : String :=
       | some b => "ok " ++ showHex b
       | none => "none"
     | _, _, _ => "bad-op"
-  | ["K", "s", base, subs, names, cards, lp, links, impl] =>
+  | ["K", "s", base, subs, names, cards, lp, links, impl, srcs] =>
     match parseName base, parseList parseName subs, optList parseName names,
           optList (·.toNat?) cards, optList parseBoolS lp, optList parseBoolS links,
-          parseBoolS impl with
-    | some base, some subs, some names, some cards, some lp, some links, some impl =>
-      match idPreimage (.shape base subs names cards lp links impl) with
+          parseBoolS impl, optList parseName srcs with
+    | some base, some subs, some names, some cards, some lp, some links, some impl, some srcs =>
+      match idPreimage (.shape base subs names cards lp links impl srcs) with
       | some b => "ok " ++ showHex b
       | none => "none"
-    | _, _, _, _, _, _, _ => "bad-op"
+    | _, _, _, _, _, _, _, _ => "bad-op"
   | ["K", "t", sub] =>
     match parseName sub with
     | some sub =>
